@@ -4,8 +4,8 @@
    [gteqn n] is trace equivalence where gates with disjoint supports commute and a special gate
    (callback) has all n qubits as support; [gteq] uses the plain qubit lists.            *)
 From Coq Require Import List Bool Arith Lia ZArith.
-From QV Require Import Base.Mat Base.Zi C01.Model C01.Spec C01.Lib C01.ProofsMat C01.ProofsRun C01.ProofsDM
-  C01.ProofsQueue C01.Examples Base.Sem Base.SemPtrace Base.SemExamples.
+From QV Require Import Base.Mat Base.Zi C01.Model C01.Spec C01.Lib C01.ProofsCtrl C01.ProofsMat C01.ProofsRun C01.ProofsDM
+  C01.ProofsFused C01.ProofsQueue C01.Examples Base.Sem Base.SemPtrace Base.SemExamples.
 From QV Require Import Base.Trace C07.Model C07.Proofs C07.ProofsFuse C07.InstMat.
 Import ListNotations.
 
@@ -66,6 +66,25 @@ Proof.
   - intros qs gs g H Hg. destruct (fuse_groups_proof n c k qs gs H) as [Hall _]. apply Hall; auto.
 Qed.
 Print Assumptions fuse_keeps_measurements.
+
+(* Fusion never moves a gate across another one that shares a qubit with it -- whatever the two
+   letters are (unitaries, measurements incl. collapsing ones, noise channels, callback gates = all
+   qubits): the two keep their relative order (and multiplicities) in the fused circuit.
+   Holds for every circuit, width and pair; no hypothesis on the kinds. *)
+Theorem fuse_never_crosses_shared_qubit : forall (n : nat) (c : list gate) (max_qubits : nat) (a b : gate),
+  gindepn n a b = false ->
+  filter (fun x => gate_eqb x a || gate_eqb x b) (flatten (fuse_model n c max_qubits))
+  = filter (fun x => gate_eqb x a || gate_eqb x b) c.
+Proof.
+  intros n c k a b Hab.
+  apply (teq_filter_dep (gindepn n) (fun x => gate_eqb x a || gate_eqb x b)); [|apply fuse_equiv].
+  intros x y Hx Hy Hi. apply orb_true_iff in Hx. apply orb_true_iff in Hy.
+  destruct Hx as [Hx|Hx]; apply gate_eqb_eq in Hx; destruct Hy as [Hy|Hy]; apply gate_eqb_eq in Hy;
+    subst; auto; exfalso.
+  - congruence.
+  - unfold gindepn in *. rewrite sindep_sym in Hi. congruence.
+Qed.
+Print Assumptions fuse_never_crosses_shared_qubit.
 
 (* every fused group acts on at most max_qubits (distinct) qubits, contains its members' qubits,
    and has at least two members *)
@@ -234,6 +253,40 @@ Proof.
   - vm_compute. discriminate.
 Qed.
 
+(* The fused queue as the backend executes it.  [to_qitems] turns the output of fuse into a C01 queue
+   (a group = FusedGate(target_qubits, members)); C01.execute_queue applies to each FusedGate the
+   matrix of C01's model of NumpyBackend.matrix_fused (eye, then for each member in order
+   "member matrix, with controls as block_diag, kron identity, transposed onto its qubits" times the
+   accumulated matrix).  [mgood]: the letter's matrix gate is well formed, acts inside the letter's
+   support, has the matrix size the reshape demands, and the letter's qubits are < n. *)
+Theorem fused_execution_equals_original :
+  forall (T : Type) (K : ops T), semiring K ->
+  forall (n : nat) (mg : Trace.gate -> C01.Model.gate (T:=T)) (c : list Trace.gate) (max_qubits : nat) (v : vec T),
+    Forall (mgood n mg) c -> length v = 2 ^ n ->
+    execute_queue K n (to_qitems mg (fuse_model n c max_qubits)) v = execute K n (map mg c) v.
+Proof. intros T K HK n mg c k v. exact (fused_execution_proof K HK n mg c k v). Qed.
+Print Assumptions fused_execution_equals_original.
+
+(* FusedGate.matrix of every group produced by fuse = ordered product of its members' operators
+   (instance of C01.fused_gate_ok: the hypotheses of that theorem hold for every group) *)
+Theorem fused_group_matrix :
+  forall (T : Type) (K : ops T), semiring K ->
+  forall (n : nat) (mg : Trace.gate -> C01.Model.gate (T:=T)) (c : list Trace.gate) (max_qubits : nat) qs gs,
+    Forall (mgood n mg) c -> In (IGroup qs gs) (fuse_model n c max_qubits) ->
+    embed K n qs (matrix_fused K qs (map mg gs)) = circ_op K n (map mg gs).
+Proof. intros T K HK n mg c k qs gs. exact (fused_group_matrix_proof K HK n mg c k qs gs). Qed.
+Print Assumptions fused_group_matrix.
+
+Example fused_execution_hyps :
+  Forall (mgood 3 ex_mg) ex_fuse_c
+  /\ execute_queue Ziops 3 (to_qitems ex_mg (fuse_model 3 ex_fuse_c 2)) (map (fun i => (Z.of_nat i, 1%Z)) (seq 0 8))
+      = execute Ziops 3 (map ex_mg ex_fuse_c) (map (fun i => (Z.of_nat i, 1%Z)) (seq 0 8)).
+Proof.
+  split.
+  - unfold ex_fuse_c, mgood, mvalid, gate_wf, gate_shape_ok, shape, ex_mg. fin.
+  - vm_compute. reflexivity.
+Qed.
+
 (* Light cone, reduced density matrix on S (Base/SemPtrace.reduced = partial trace over the other
    qubits), density matrices evolving by U rho U^+ (C01/Spec.sandwich).  No partial-trace premise:
    it is Base/SemProps.ptrace_ignores_outside.  What is required of the DROPPED gates: their
@@ -286,4 +339,76 @@ Proof.
   - unfold sRho. apply tab2_wf.
   - vm_compute. reflexivity.
   - vm_compute. discriminate.
+Qed.
+
+(* ================================================================ the light-cone circuit AS RETURNED (re-indexed) *)
+(* two facts of linear algebra about Base/SemPtrace.reduced, for all matrices over a commutative semiring:
+   an operator embedded on exactly the kept qubits commutes with the partial trace over the rest, and
+   partial traces compose (inner set given by positions inside the outer, any order) *)
+Theorem ptrace_of_embedded_on_kept :
+  forall (T : Type) (K : ops T) (cj : T -> T), semiring K -> conj_ok K cj ->
+  forall n fq (V rho : mat T), NoDup fq -> (forall q, In q fq -> q < n) -> wf_mat (length fq) V -> wf_mat n rho ->
+    reduced K n fq (sandwich K cj n (embed K n fq V) rho) = sandwich K cj (length fq) V (reduced K n fq rho).
+Proof. intros T K cj HK HC. exact (reduced_embed_kept K cj HK HC). Qed.
+Print Assumptions ptrace_of_embedded_on_kept.
+
+Theorem ptrace_compose :
+  forall (T : Type) (K : ops T), semiring K ->
+  forall n fq S (rho : mat T), incr_from 0 fq -> (forall q, In q fq -> q < n) -> (forall q, In q S -> In q fq) ->
+    wf_mat n rho ->
+    reduced K (length fq) (map (fun q => C01.Model.index_of q fq) S) (reduced K n fq rho) = reduced K n S rho.
+Proof. intros T K HK. exact (reduced_reduced K HK). Qed.
+Print Assumptions ptrace_compose.
+
+(* the qubit map of the model (compared exactly with the dictionary the real light_cone returns, on
+   every harness case) is the position in the sorted cone used by C01's relabel *)
+Theorem light_cone_qubit_map_is_position : forall c S q,
+  In q (fst (lc_sweep c S)) ->
+  lc_map (fst (lc_sweep c S)) q = Some (C01.Model.index_of q (fst (lc_sweep c S))).
+Proof. intros c S q. apply model_index_of_is_position. Qed.
+Print Assumptions light_cone_qubit_map_is_position.
+
+(* operator of the kept gates on n qubits = operator of the returned circuit embedded on the cone *)
+Theorem kept_op_is_embedded_cone_circuit :
+  forall (T : Type) (K : ops T), semiring K ->
+  forall (n : nat) (mg : Trace.gate -> C01.Model.gate (T:=T)) (c : list Trace.gate) (S : list nat),
+    Forall (mvalid n mg gqs) c -> (forall q, In q S -> q < n) -> (forall g q, In g c -> In q (gqs g) -> q < n) ->
+    let cone := fst (lc_sweep c S) in
+    circ_op K n (map mg (snd (lc_sweep c S)))
+    = embed K n cone (circ_op K (length cone) (map (fun g => relabel cone (mg g)) (snd (lc_sweep c S)))).
+Proof. intros T K HK n mg c S. exact (kept_op_is_embedded_cone_circuit_proof K HK n mg c S). Qed.
+Print Assumptions kept_op_is_embedded_cone_circuit.
+
+(* THE statement of the property for light_cone: cone = sorted final qubit set; kept' = gates of the
+   returned circuit = kept gates re-indexed by qubit_map (position in sorted cone); S' = requested
+   qubits, in the order given, re-indexed.  For every circuit of well-formed matrix gates whose dropped
+   gates are embedded isometries, every S (any order, duplicates allowed) and EVERY n-qubit matrix rho:
+   reduced state on S of the full run = reduced state on S' of the returned |cone|-qubit circuit run on
+   the reduced initial state Tr_{not cone} rho. *)
+Theorem light_cone_reindexed_reduced_state :
+  forall (T : Type) (K : ops T) (cj : T -> T), semiring K -> conj_ok K cj ->
+  forall (n : nat) (mg : Trace.gate -> C01.Model.gate (T:=T)) (c : list Trace.gate) (S : list nat) (rho : mat T),
+    Forall (mvalid n mg gqs) c ->
+    (forall g, In g (lc_dropped c S) -> embeds_unitary K cj n mg g) ->
+    (forall q, In q S -> q < n) -> (forall g q, In g c -> In q (gqs g) -> q < n) -> wf_mat n rho ->
+    let cone := fst (lc_sweep c S) in
+    let kept' := map (fun g => relabel cone (mg g)) (snd (lc_sweep c S)) in
+    let S' := map (fun q => C01.Model.index_of q cone) S in
+    reduced K n S (trun (dact K cj n mg) c rho)
+    = reduced K (length cone) S' (sandwich K cj (length cone) (circ_op K (length cone) kept') (reduced K n cone rho)).
+Proof. intros T K cj HK HC n mg c S rho. exact (light_cone_reindexed_proof K cj HK HC n mg c S rho). Qed.
+Print Assumptions light_cone_reindexed_reduced_state.
+
+Example light_cone_reindexed_hyps :
+  (forall g q, In g ex_lc_c -> In q (gqs g) -> q < 3)
+  /\ fst (lc_sweep ex_lc_c [0]) = [0; 1]
+  /\ reduced Ziops 3 [0] (trun (dact Ziops zi_conj 3 ex_mg) ex_lc_c sRho)
+      = reduced Ziops 2 [0] (sandwich Ziops zi_conj 2
+          (circ_op Ziops 2 (map (fun g => relabel [0; 1] (ex_mg g)) (snd (lc_sweep ex_lc_c [0]))))
+          (reduced Ziops 3 [0; 1] sRho)).
+Proof.
+  split; [|split].
+  - unfold ex_lc_c. fin.
+  - reflexivity.
+  - vm_compute. reflexivity.
 Qed.
